@@ -120,7 +120,7 @@ fn main_c11(tier: &str, seed: u64, replay: Option<&str>) -> i32 {
         }
     }
     // memory oracle
-    let mem_n = if tier == "thorough" { 5000 } else { 400 };
+    let mem_n = if tier == "thorough" { 3000 } else { 300 };
     let mem_cfgs: Vec<Vec<String>> = vec![
         vec!["--no-gitconfig".into(), "--width".into(), "120".into()],
         vec!["--no-gitconfig".into(), "--width".into(), "120".into(), "--side-by-side".into(), "--line-numbers".into()],
@@ -134,6 +134,9 @@ fn main_c11(tier: &str, seed: u64, replay: Option<&str>) -> i32 {
         vec!["--no-gitconfig".into(), "--width".into(), "400".into(), "--side-by-side".into(), "--wrap-max-lines".into(), "unlimited".into(), "--line-numbers".into()],
         vec!["--no-gitconfig".into(), "--width".into(), "60".into(), "--side-by-side".into(), "--wrap-max-lines".into(), "0".into()],
         vec!["--no-gitconfig".into(), "--width".into(), "60".into(), "--line-numbers".into(), "--keep-plus-minus-markers".into(), "--tabs".into(), "3".into(), "--max-line-length".into(), "90".into()],
+        // the styles that make handlers return early
+        vec!["--no-gitconfig".into(), "--width".into(), "120".into(), "--file-style".into(), "omit".into(), "--hunk-header-style".into(), "omit".into(), "--commit-decoration-style".into(), "none".into()],
+        vec!["--no-gitconfig".into(), "--width".into(), "120".into(), "--raw".into()],
     ];
     // every configuration with ordinary lines and with over-long lines
     // every configuration with ordinary lines, with over-long lines, and with one file per hunk
